@@ -17,8 +17,13 @@ TInit == /\ tid \in 1..NTraces
 ObsSet(n) == LET fr == Tr.frames[n] IN {<<fr[j].p, fr[j].s, fr[j].l>> : j \in 1..Len(fr)}
 \* C02: transcripts of the returned hypotheses are pairwise distinct
 ObsDistinct(n) == LET fr == Tr.frames[n] IN Cardinality({fr[j].p : j \in 1..Len(fr)}) = Len(fr)
+\* Tr.support = TRUE: the matrix was rendered with its weight-1 entries as probabilities of 1e-6 (far below the default
+\* pre-selection threshold exp(-10), the rest of the row renormalised).  The zero pattern - hence the SET of transcripts an
+\* unpruned search returns - is that of the model's matrix, the masses are not: only the transcripts are compared.
 Matches(n, b) == /\ ObsDistinct(n)
-                 /\ ObsSet(n) = {<<q, 1000 * (b[q][1] + b[q][2]), 1000 * b[q][3]>> : q \in DOMAIN b}
+                 /\ IF Tr.support
+                    THEN {Tr.frames[n][j].p : j \in 1..Len(Tr.frames[n])} = DOMAIN b
+                    ELSE ObsSet(n) = {<<q, 1000 * (b[q][1] + b[q][2]), 1000 * b[q][3]>> : q \in DOMAIN b}
 
 TNext == /\ UNCHANGED tid
          /\ \/ /\ Tr.outcome = "ok" /\ Frame
@@ -26,7 +31,7 @@ TNext == /\ UNCHANGED tid
             \/ /\ Tr.outcome = "ok" /\ Finish
                /\ Matches(T, beam')
                \* C03: the transcript handed on maximises vis + scale * lm ...
-               /\ Tr.best \in {q \in DOMAIN beam' : \A o \in DOMAIN beam' : Total(beam', q) >= Total(beam', o)}
+               /\ Tr.support \/ Tr.best \in {q \in DOMAIN beam' : \A o \in DOMAIN beam' : Total(beam', q) >= Total(beam', o)}
                \* ... it is the hypothesis whose posterior is reported as the bag confidence ...
                /\ Tr.best \in {Tr.confset[j] : j \in 1..Len(Tr.confset)}
                \* ... and the LM state returned for carrying over belongs to such a hypothesis
